@@ -10,7 +10,8 @@ def run(rep):
     lexical.visitor_deductive(rep)
     from . import control
     control.clause_deductive(rep, targets=['yp_generator.YPPrologCompiler.compile_expression', 'yp_generator.YPPrologCompiler.compile_list'])
-    enginep.engine_deductive(rep, ['engine.Atom.unify', 'engine.unify', 'engine.Functor.unify', 'engine.get_value'], heap_lemmas=False)
+    enginep.engine_deductive(rep, ['engine.Atom.unify', 'engine.unify', 'engine.Functor.unify', 'engine.get_value'] + enginep.CTOR_API, heap_lemmas=False)
+    control.parse_deductive(rep)
     enginep.topython_deductive(rep)
     q = rep.tier == 'quick'
     fw.standin(rep, 's_c16.py', ['run', rep.seed, 300 if q else 5000],
